@@ -1161,8 +1161,13 @@ func (w *world) joinOp(s Step) {
 				run.Violate("C17/add_present_failed", "", "adding p%d, which is a member already, at p%d failed: %v", s.Slot, s.At, err)
 			}
 		}
-		if was != yes && ret && err != nil && strings.Contains(err.Error(), "cannot connect to") {
-			// the request never reached the other side: nothing can have changed
+		if was != yes && ret && err != nil && s.Op == "join" && strings.HasPrefix(err.Error(), w.id(s.Slot).Pretty()+" cannot connect to ") {
+			// the joiner's own dial of the peer it bootstraps to failed: the request
+			// never left it and nothing can have changed. Nothing else that says
+			// "cannot connect" means as much: PeerAdd reports that very error when
+			// the addition was committed and the new peer could then not be asked for
+			// its ID (F22), and a redirect to the leader may fail so after an earlier
+			// attempt of uncertain outcome
 			run.Probe("add_failed_before_reaching_anyone")
 		} else if was != yes {
 			w.member[s.Slot] = maybe
